@@ -14,7 +14,7 @@ from fdsim import specgen
 PROPERTY = "C27"
 LEVEL = "exploration"
 RUNS = {"quick": 600, "thorough": 8000}
-SHRINK_BUDGET = {"quick": 400, "thorough": 1200}
+SHRINK_BUDGET = {"quick": 250, "thorough": 1200}
 RUN_TIMEOUT_S = 300
 RULE = (
     "same generator as C26 (seeded constraint systems emitted from a hidden ground truth; uniform and explicit non-uniform grids; consistent, under- and "
